@@ -117,3 +117,33 @@
     pub open spec fn rej_ntt_rel(s: spec_fn(int) -> u8, a: T) -> bool {
         exists|wit: Seq<int>| wit.len() == 256 && forall|j: int| 0 <= j < 256 ==> #[trigger] rej_ntt_at(s, a, j, wit[j])
     }
+    // ---- FIPS 204 Algorithm 34 (ExpandMask): polynomial number r of attempt kappa is BitUnpack(H(rho'' || IntegerToBytes(kappa + r, 2), 32c))
+    pub open spec fn mask_seed(rho: Seq<u8>, n: int) -> Seq<u8> { rho + seq![(n % 256) as u8, (n / 256) as u8] }
+    pub open spec fn spec_mask_coef(rho: Seq<u8>, n: int, gamma1: int, j: int) -> int {
+        let c = 1 + spec_bitlen(gamma1 - 1);
+        spec_unpack_coef(stream_take(shake256(mask_seed(rho, n)), 0, 32 * c), gamma1 - 1, gamma1, j)
+    }
+    // ---- SampleInBall (Algorithm 29): number of non-zero coefficients among the first n
+    pub open spec fn nz_count(c: Seq<i32>, n: int) -> int
+        decreases n
+    {
+        if n <= 0 { 0 } else { nz_count(c, n - 1) + (if c[n - 1] != 0 { 1int } else { 0int }) }
+    }
+    pub proof fn lemma_nz_update(c: Seq<i32>, p: int, v: i32, n: int)
+        requires 0 <= p < c.len(), 0 <= n <= c.len(),
+        ensures nz_count(c.update(p, v), n) == nz_count(c, n)
+            + (if p < n { (if v != 0 { 1int } else { 0int }) - (if c[p] != 0 { 1int } else { 0int }) } else { 0int }),
+        decreases n
+    {
+        if n > 0 {
+            lemma_nz_update(c, p, v, n - 1);
+            assert(c.update(p, v)[n - 1] == (if p == n - 1 { v } else { c[n - 1] }));
+        }
+    }
+    pub proof fn lemma_nz_zero_tail(c: Seq<i32>, from: int, n: int)
+        requires 0 <= from <= n <= c.len(), forall|t: int| from <= t < n ==> c[t] == 0,
+        ensures nz_count(c, n) == nz_count(c, from),
+        decreases n
+    {
+        if n > from { lemma_nz_zero_tail(c, from, n - 1); }
+    }
